@@ -195,7 +195,17 @@ Proof.
   inversion Hput as [E']. clear Hput.
   set (txs1 := put_tx_meta (t_id t) h txs) in *.
   pose proof (fun k' => mark_all_of _ _ _ _ _ k' Em) as A.
-  destruct (put_outputs_of _ _ _ _ _ _ _ _ E') as [BK BS].
+  pose proof (mark_all_sound U _ _ _ _ _ Em) as Hsm.
+  assert (Hs1 : Forall (note_sound U) notes1).
+  { apply Hsm; [|apply (ti_sound _ _ _ I)]. intros k Hk. rewrite Hfound in Hk. apply filter_In in Hk.
+    exists cb, t. repeat split; try tauto. apply HcU. assumption. }
+  assert (Hpair : forall o o', In o (wt_owned w) -> In o' (wt_owned w) -> pairc o o').
+  { intros o o' Ho Ho'. rewrite Hown in Ho, Ho'. apply filter_In in Ho, Ho'.
+    apply (pairc_universe U HU cb t); try tauto. apply HcU. assumption. }
+  assert (Hkeyed : forall o, In o (wt_owned w) -> keyed notes1 (o_key o) (t_id t) (o_idx o)).
+  { intros o Ho. rewrite Hown in Ho. apply filter_In in Ho.
+    apply (keyed_of_sound U HU notes1 cb t o Hs1); try tauto. apply HcU. assumption. }
+  destruct (put_outputs_of _ _ _ _ _ _ _ _ Hpair Hkeyed E') as [BK BS].
   assert (Hmono : forall k x, In x (spent_of k notes) -> In x (spent_of k notes')).
   { intros k x Hx. apply BS. left. apply (A k). left. assumption. }
   destruct (put_outputs_mined _ _ _ _ _ _ _ _ E') as [RM RD].
@@ -209,7 +219,7 @@ Proof.
   { intros o H1 H2. apply in_map. rewrite Hown. apply filter_In. auto. }
   (* soundness of the new notes table *)
   assert (Hsnd : Forall (note_sound U) notes' /\ NoDup (map n_key notes')).
-  { apply (put_wtxs_sound c U HcU birthday Hheights h nfm locs HNs HLs [w] txs notes txs' notes').
+  { apply (put_wtxs_sound c U HcU HU birthday Hheights h nfm locs HNs HLs [w] txs notes txs' notes').
     - intros w0 [<- | []]. exists cb, t. repeat split; try assumption.
       + rewrite Hfound. intros k Hk. apply filter_In in Hk. tauto.
       + rewrite Hown. apply incl_refl.
@@ -345,7 +355,7 @@ Lemma put_sblock_complete floor nfs r r' cb :
   /\ (forall m, Qof (r_blocks r') m <-> m = b_height cb \/ Qof (r_blocks r) m).
 Proof.
   intros Hcb I Hfloor H.
-  pose proof (put_sblock_sound c U HcU birthday Hheights floor nfs cb r r' Hcb H (bi_sound _ _ _ I)) as Hsound'.
+  pose proof (put_sblock_sound c U HcU HU birthday Hheights floor nfs cb r r' Hcb H (bi_sound _ _ _ I)) as Hsound'.
   unfold put_sblock, scan_block in H.
   destruct (scan_txs nfs 0 (b_txs cb)) as [ws us] eqn:Es. cbn [sb_height sb_hash sb_wtxs sb_unl] in H.
   assert (Esb : scan_block nfs cb = mkSb (b_height cb) (b_hash cb) ws us) by (unfold scan_block; rewrite Es; reflexivity).
@@ -613,7 +623,7 @@ Proof.
   - (* f1 *)
     intros k Hk. apply mem_key_In in Hk. unfold unspent_nfs in Hk. apply in_map_iff in Hk. destruct Hk as [n [<- Hn]].
     apply filter_In in Hn. destruct Hn as [Hn Hf]. apply andb_true_iff in Hf. destruct Hf as [Hm _].
-    destruct I1 as [_ S2 _ _ _]. rewrite Forall_forall in S2. destruct (S2 _ Hn) as [[b [t [o [Hb [Ht [Ho [Eo [Ek [_ Er]]]]]]]]] _].
+    destruct I1 as [_ S2 _ _ _]. rewrite Forall_forall in S2. destruct (S2 _ Hn) as [[b [t [o [Hb [Ht [Ho [Eo [Ek [_ [Er _]]]]]]]]]] _].
     destruct (mined_row_chain _ _ _ I2 Hm) as [b1 [t1 [Hb1 [Ht1 [Hid1 HQ1]]]]].
     assert (t1 = t) by (apply (vu_tx _ HU b1 t1 b t); auto; congruence). subst t1.
     exists b1, t, o. repeat split; try assumption. unfold owned; rewrite Eo; reflexivity.
@@ -623,7 +633,7 @@ Proof.
     pose proof (find_note_In _ _ _ Hn) as [Hin Hk].
     apply mem_key_In. unfold unspent_nfs. apply in_map_iff. exists n. split; [assumption|].
     apply filter_In. split; [assumption|]. apply andb_true_iff. split.
-    + destruct I1 as [_ S2 _ _ _]. rewrite Forall_forall in S2. destruct (S2 _ Hin) as [[b1 [t1 [o1 [Hb1 [Ht1 [Ho1 [_ [Ek1 [_ Er]]]]]]]]] _].
+    + destruct I1 as [_ S2 _ _ _]. rewrite Forall_forall in S2. destruct (S2 _ Hin) as [[b1 [t1 [o1 [Hb1 [Ht1 [Ho1 [_ [Ek1 [_ [Er _]]]]]]]]]] _].
       destruct (vu_out _ HU b1 t1 o1 b t o) as [-> _]; auto; [congruence|].
       rewrite <- Er. exact (I3 b t o Hb Ht HQ Ho Hoo).
     + unfold spent_of in Hnil. rewrite Hn in Hnil. apply negb_true_iff.
@@ -636,7 +646,7 @@ Qed.
 
 Lemma scan_inv s bs s' : incl bs c -> scan birthday s bs = Ok s' -> inv s -> inv s'.
 Proof.
-  intros Hin H I. pose proof (scan_sound c U HcU birthday Hheights s bs s' Hin H (iv_sound _ I)) as Hsound'.
+  intros Hin H I. pose proof (scan_sound c U HcU HU birthday Hheights s bs s' Hin H (iv_sound _ I)) as Hsound'.
   unfold scan in H. destruct bs as [|b0 bs0]; [inversion H; subst; assumption|].
   set (bs := b0 :: bs0) in *. set (h0 := b_height b0) in *.
   destruct (scan_blocks _ (unspent_nfs s) bs) as [sbs| |] eqn:E; try discriminate.
